@@ -486,7 +486,9 @@ def engine_case(ctx, i, engine_name, opts, model_kind, nn_only, expected_order, 
             if abs(e1 - e0) > 1e-7 * scale:
                 ctx.violation(tag + ':energy-not-conserved', '<H> changed from %r to %r in one-site TDVP' % (e0, e1), case)
     # ---- splitting the same total time differently over run() calls gives the same state (untruncated)
-    if exact_regime and runs > 1 and rng.random() < 0.7:
+    # (not with the basis extension of TDVP: it runs once per run() call with random / rank-deficient directions, and the following
+    #  steps agree only to the conditioning of the extended basis)
+    if exact_regime and runs > 1 and rng.random() < 0.7 and 'Krylov_params' not in opts:
         opts3 = dict(opts)
         opts3['N_steps'] = n_tot
         try:
